@@ -110,9 +110,10 @@ class _Renamer(ast.NodeTransformer):
 
 
 class Inliner:
-    def __init__(self, repo: Repo, prog: Program) -> None:
+    def __init__(self, repo: Repo, prog: Program, keep: set[str] | None = None) -> None:
         self.repo = repo
         self.prog = prog
+        self.keep = keep or set()
         self.counter = 0
         self.stats = {"inlined_calls": 0, "functions_changed": 0}
 
@@ -130,6 +131,10 @@ class Inliner:
             return None
         if callee.name == "__init__" or callee.name.startswith("__"):
             return None
+        if callee.qual in self.keep:
+            return None
+        if any(isinstance(n, (ast.FunctionDef, ast.AsyncFunctionDef, ast.Lambda, ast.ClassDef)) for n in ast.walk(callee.node) if n is not callee.node):
+            return None  # factories: splicing them would move their closures into the caller
         decos = [d for d in callee.decorators if not d.endswith("staticmethod")]
         if decos:
             return None
@@ -394,12 +399,12 @@ def _own_expr_fields(st: ast.stmt) -> list[str]:
     return []
 
 
-def build_inlined_repo(root=None) -> tuple[Repo, dict[str, int]]:
+def build_inlined_repo(root=None, keep: set[str] | None = None) -> tuple[Repo, dict[str, int]]:
     """A second Repo whose functions have their private helpers inlined (ASTs mutated in place on a private parse,
     original line numbers kept on every statement)."""
     work = Repo(root)
     prog = Program(work)
-    inl = Inliner(work, prog)
+    inl = Inliner(work, prog, keep)
     changed = 0
     # innermost functions first: a caller then splices the already-inlined body of its helper
     for fi in sorted(work.functions.values(), key=lambda f: (-f.qual.count(".<locals>."), f.qual)):
